@@ -564,9 +564,112 @@ def live_refresh_phase(ctx):
             ctx.violation("sanitizer report from munged in the live refresh phase (%s)" % mode, {"report": rep[:3000]}, found_input=False)
 
 
+EMFILE_KEY = "F-C17-emfile-empty-map: refresh without a free descriptor installs an empty map"
+
+
+def live_emfile_phase(ctx):
+    """THOROUGH tier.  A refresh that runs while munged has no free descriptor: the group database cannot be opened
+    (EMFILE), the scan then sees "no more entries" at once, _gids_map_create reports success with an empty map and
+    _gids_map_update swaps it in — "a failed refresh keeps the old map" is violated (Coq: C17_silent_open_failure_refuted).
+    How: the whole daemon with the NSS shim (its setgrent() opens the database file named by VERIF_NSS_DB with fopen() and,
+    exactly like glibc's files backend, delivers ENOENT = end of the database from getgrent_r when that open failed — the
+    shim is unchanged; the descriptor shortage is REAL): `prlimit --pid` lowers RLIMIT_NOFILE of the running daemon to the
+    number of descriptors it has open plus a few, idle client connections take those, then SIGHUP (refreshes on SIGHUP
+    only, so that nothing repairs the map afterwards); the idle connections are closed and the answers are asked."""
+    import rig, credcorr, socket, shutil
+    if not shutil.which("prlimit"):
+        ctx.notes.append("live EMFILE scenario skipped: no prlimit")
+        return
+    exe, err = rig.build_daemon(ctx, name="munged-c17emfile", san="address",
+                                extra_src=[os.path.join(vlib.HARNESS, "nss_shim.c")], wraps=credcorr.NSS_WRAPS)
+    if exe is None:
+        ctx.violation("munged does not build with the NSS shim: " + err[-300:], {"obligation": "build (live EMFILE)"}, found_input=False)
+        return
+    db = {"groups": [(700, ["ann"]), (701, ["bob"])], "users": [("ann", 3001), ("bob", 3002)]}
+    d = rig.Daemon(ctx, exe, tag="c17emfile", nthreads=2, nss_db=db, foreground=True)
+    if not d.start():
+        ctx.violation("munged does not start (live EMFILE)", {"obligation": "start (live EMFILE)"}, found_input=False)
+        return
+    idle, hist = [], []
+    try:
+        time.sleep(0.4)
+
+        def member(uid, gid):
+            r, st = rig.encode(d.sock, uid=9, gid=9, auth_gid=gid, data=b"m")
+            if r is None or r["error_num"] != 0:
+                return None
+            q, st = rig.decode(d.sock, r["data"], uid=uid, gid=60000)
+            return None if q is None else (q["error_num"] == 0)
+        before = (member(3001, 700), member(3002, 701), member(3002, 700))
+        hist.append("initial: ann in 700 -> %s, bob in 701 -> %s, bob in 700 -> %s" % before)
+        if before != (True, True, False):
+            ctx.violation("live EMFILE scenario: initial answers wrong: %s" % (before,), {"history": hist}, found_input=False)
+            return
+        pid = d.p.pid
+        nfd = len(os.listdir("/proc/%d/fd" % pid))
+        lim = nfd + 4
+        rc, out, err = vlib.sh(["prlimit", "--pid", str(pid), "--nofile=%d:%d" % (lim, lim)])
+        if rc != 0:
+            ctx.notes.append("live EMFILE scenario skipped: prlimit failed: %s" % err[-200:])
+            return
+        for _ in range(40):                                  # idle clients: connect and say nothing
+            c = socket.socket(socket.AF_UNIX, socket.SOCK_STREAM)
+            c.settimeout(2.0)
+            try:
+                c.connect(d.sock)
+                idle.append(c)
+            except OSError:
+                c.close()
+                break
+        full = False
+        t0 = time.time()
+        while time.time() - t0 < 5.0:
+            if len(os.listdir("/proc/%d/fd" % pid)) >= lim:
+                full = True
+                break
+            time.sleep(0.05)
+        hist.append("RLIMIT_NOFILE=%d (had %d open), %d idle connections, descriptor table full: %s" % (lim, nfd, len(idle), full))
+        d.sighup(settle=0.2)                                 # the refresh runs once the acceptor gets round to the signal
+        t0 = time.time()
+        while time.time() - t0 < 8.0 and d.log_text().count("Processing signal") < 1:
+            time.sleep(0.1)
+        time.sleep(0.8)
+        hist.append("SIGHUP while no descriptor is free; munged log: %s" % " / ".join(
+            l.strip() for l in d.log_text().splitlines()[-30:] if "Found" in l or "accept" in l or "ignal" in l)[-600:])
+        for c in idle:
+            c.close()
+        idle = []
+        after = None
+        t0 = time.time()
+        while time.time() - t0 < 12.0:                       # the workers drop the idle connections; then we are served
+            after = (member(3001, 700), member(3002, 701))
+            if None not in after:
+                break
+            time.sleep(0.3)
+        hist.append("after the refresh (databases unchanged): ann in 700 -> %s, bob in 701 -> %s" % after)
+        ctx.count(("live-emfile", lim))
+        ctx.cov["live_emfile"] = {"history": hist}
+        if full and after == (False, False):
+            ctx.violation("%s: RLIMIT_NOFILE=%d, %d idle connections hold every descriptor, SIGHUP: the refresh cannot open the "
+                          "group database, yet it installs the (empty) result: is_member(uid=3001, gid=700) and "
+                          "is_member(uid=3002, gid=701) flip from yes to no although the databases did not change — a failed "
+                          "refresh did not keep the old map" % (EMFILE_KEY.split(":")[0], lim, 40),
+                          {"finding_key": EMFILE_KEY, "history": hist, "log_tail": d.log_text()[-1500:]})
+        elif after not in ((True, True), (False, False)):
+            ctx.notes.append("live EMFILE scenario inconclusive: %s" % (hist[-1],))
+    finally:
+        for c in idle:
+            c.close()
+        rc, rep = d.stop()
+    if rep.strip() and "failed to allocate" not in rep.lower():
+        ctx.notes.append("sanitizer output in the live EMFILE scenario (descriptor shortage): %s" % rep[:300])
+
+
 def run(ctx):
     _run_component(ctx)
     live_refresh_phase(ctx)
+    if ctx.thorough and not ctx.replay:
+        live_emfile_phase(ctx)
 
 
 def _run_component(ctx):
